@@ -76,6 +76,11 @@ def _runtime_fail(r):
     else:
         src = r.choice(['map(l, v => v + 1)', 'x = 1; y = 2; z = x + y; [x, y, z]', 'f = n => (0 if n <= 0 else f(n - 1)); f(50)', '1 + 2 + 3 + 4 + 5'])
         budget = r.randint(1, 6)
+        if r.random() < 0.3:
+            # every element goes through a host function that evaluates on the SAME parser with a budget of its own:
+            # the nested evaluations are separate calls, the outer budget still runs out
+            src = r.choice(['l30 | map(p => taxed(p))', 'map(l30, p => taxed(p) + 1)', 'l30 | filter(p => taxed(p) > 0)'])
+            budget = r.choice([20, 40, 60])
     if r.random() < 0.4 and k != 'op_budget':
         # earlier statements of the failing program bind names that OTHER calls expect to be undefined
         other = r.choice([n for n in ['u', 'undefined_name', 'x9', 'nofn', 'len2'] if n != u and n not in src] or ['zz9'])
@@ -143,6 +148,7 @@ def _names(with_big=False):
     n = {'l': [1, 2, 3], 'd': {'a': {'b': 1}, 'k': 2}, 's': 'abc', 'x': 5, 'e': [], 'n': [[1, 2], [3]],
          'mp': types.MappingProxyType({'a': 1}), 'cm': collections.ChainMap({'a': 1}, {'b': 2}), 'ud': collections.UserDict({'a': 1}),
          'tp': (1, 2), 'hk': {1: 10, 2.5: 'x', None: 0, 'a': 1}}
+    n['l30'] = list(range(30))
     if with_big:
         n['big'] = list(range(10000))
         n['bigd'] = {str(i): i for i in range(10000)}
@@ -173,7 +179,13 @@ def execute(case, ctx):
             else:
                 kw = {'max_ops_evaluated': op['budget']} if op.get('budget') else {'max_ops_evaluated': 100000}
                 # every call gets its own fresh names mapping: nothing an earlier call bound or mutated may be visible
-                parser.eval(src, _names(with_big=op['kind'] == 'size_cap'), **kw)
+                nm = _names(with_big=op['kind'] == 'size_cap')
+                if 'taxed' in src:
+                    def taxed(v, _p=parser):
+                        return _p.eval('v * rate', {'v': v, 'rate': 2}, max_ops_evaluated=20)
+                    nm['taxed'] = taxed
+                    ctx.fault('reentry')
+                parser.eval(src, nm, **kw)
         except BaseException as e:          # classification below decides what it means
             if type(e).__name__ in ('RunTimeout', 'RunTooBig'):
                 raise
